@@ -168,7 +168,7 @@ func main() {
 	// a call into the real code that never returns (a deadlock the slice's own watchdogs cannot get out
 	// of) is a finding with the context so far, not a run that is silently cut off from outside
 	go func() {
-		limit := 900 * time.Second
+		limit := 600 * time.Second
 		if *tier == "thorough" {
 			limit = 5400 * time.Second
 		}
